@@ -2,12 +2,32 @@
 Driver/Main.lean — replays line-protocol traces on the model (one output line per input line).
 -/
 import ChitchatModel.Driver.Sexp
+import ChitchatModel.Model.Listener
+import ChitchatModel.Model.Select
 namespace Chitchat.Driver
 open Chitchat
 
 structure World where
   nodes : List (Nat × Node) := []
   now : Nat := 0
+  listeners : List (Nat × Listeners) := []
+
+def World.listenersOf (w : World) (slot : Nat) : Listeners :=
+  ((w.listeners.find? (fun p => p.1 == slot)).map (·.2)).getD []
+
+def World.setListeners (w : World) (slot : Nat) (ls : Listeners) : World :=
+  { w with listeners := (slot, ls) :: w.listeners.filter (fun p => p.1 != slot) }
+
+/-- canonical (sorted) rendering of the listener calls caused by a list of events -/
+def pCalls (w : World) (slot : Nat) (evs : List (Id × Event)) : String :=
+  let ls := w.listenersOf slot
+  let calls : List String := (evs.map (fun e =>
+    (ls.triggerEvent e.2.key e.2.value).map (fun c =>
+      pList "l" [toString c.1, pId e.1, pBytes c.2.1, pBytes c.2.2]))).flatten
+  pList "calls" (sortBy (fun a b => decide (a ≤ b)) calls)
+
+def pEvC (w : World) (slot : Nat) (evs : List (Id × Event)) : String :=
+  pEvents evs ++ " " ++ pCalls w slot evs
 
 def World.node? (w : World) (slot : Nat) : Option Node :=
   (w.nodes.find? (fun p => p.1 == slot)).map (·.2)
@@ -96,9 +116,9 @@ def pWire (C : Compressor) : Option Msg → String
 
 def bad (w : World) (why : String) : World × String := (w, "(bad-op " ++ why ++ ")")
 
-def pEffects (e : Effects) : String :=
+def pEffects (w : World) (slot : Nat) (e : Effects) : String :=
   pList "fx" [match e.reply with | some m => pMsg m | none => "(noreply)",
-    toString e.callbacks, pEvents e.events]
+    toString e.callbacks, pEvC w slot e.events]
 
 /-- Own-copy write: returns events and the node dump. -/
 def ownWrite (w : World) (slot : Nat) (f : NodeState → NodeState × List Event) : World × String :=
@@ -109,7 +129,7 @@ def ownWrite (w : World) (slot : Nat) (f : NodeState → NodeState × List Event
     let s := (cs.nodeState n.cfg.selfId).getD NodeState.empty
     let (s', evs) := f s
     let n' := { n with cs := cs.setNode n.cfg.selfId s' }
-    (w.setNode slot n', pList "ok" [pEvents (evs.map (fun e => (n.cfg.selfId, e))), pNode n'])
+    (w.setNode slot n', pList "ok" [pEvC w slot (evs.map (fun e => (n.cfg.selfId, e))), pNode n'])
 
 def pOptBytes : Option Bytes → String
   | some b => pList "some" [pBytes b]
@@ -180,7 +200,7 @@ def step (w : World) (cmd : Sexp) : World × String :=
       match n.processMessage (oracleCompressor oracle) m w.now order with
       | .error e => (w, pPanic e)
       | .ok (n', fx) =>
-        (w.setNode slot n', pList "ok" [pEffects fx, pWire (oracleCompressor oracle) fx.reply, pNode n'])
+        (w.setNode slot n', pList "ok" [pEffects w slot fx, pWire (oracleCompressor oracle) fx.reply, pNode n'])
     | _, _, _, _, _ => bad w "msg"
   | .list [.atom "msglite", slot, m, order, oracle] =>
     match slot.nat?.bind w.node?, slot.nat?, rMsg m, rIds order, rOracle oracle with
@@ -188,7 +208,7 @@ def step (w : World) (cmd : Sexp) : World × String :=
       match n.processMessage (oracleCompressor oracle) m w.now order with
       | .error e => (w, pPanic e)
       | .ok (n', fx) =>
-        (w.setNode slot n', pList "ok" [pEffects fx, pWire (oracleCompressor oracle) fx.reply])
+        (w.setNode slot n', pList "ok" [pEffects w slot fx, pWire (oracleCompressor oracle) fx.reply])
     | _, _, _, _, _ => bad w "msglite"
   | .list [.atom "live", slot] =>
     match slot.nat?.bind w.node?, slot.nat? with
@@ -203,7 +223,7 @@ def step (w : World) (cmd : Sexp) : World × String :=
         | .set => .set | .deleted _ => .deleted w.now | .ttl _ => .ttl w.now } : VV)))
       match n.resetNodeStateIfUpdate i kvs mx gc with
       | .error e => (w, pPanic e)
-      | .ok (n', evs) => (w.setNode slot n', pList "ok" [pEvents evs, pNode n'])
+      | .ok (n', evs) => (w.setNode slot n', pList "ok" [pEvC w slot evs, pNode n'])
     | _, _, _, _, _, _ => bad w "catchup"
   | .list [.atom "rmcopy", slot, i, remember] =>
     match slot.nat?.bind w.node?, slot.nat?, rId i, remember.nat? with
@@ -223,6 +243,28 @@ def step (w : World) (cmd : Sexp) : World × String :=
       | some s => s.maxVersion == o.2
       | none => false))
     (w, if ok then "(converged yes)" else "(converged no)")
+  | .list [.atom "selcheck", peers, live, dead, seeds, script, nodes, deadOpt, seedOpt] =>
+    let nats := fun (x : Sexp) => (rTagged x).bind (mapM? Sexp.nat?)
+    let opt := fun (x : Sexp) => match x with
+      | .atom "none" => some (none : Option Nat)
+      | other => other.nat?.map some
+    let draw : Option (Option Nat) := match script with
+      | .list [.atom "const", c] => c.nat?.map (fun c => some (c / 2048))
+      | .list (.atom "counter" :: _) => some none
+      | _ => none
+    match nats peers, nats live, nats dead, nats seeds, nats nodes, opt deadOpt, opt seedOpt, draw with
+    | some peers, some live, some dead, some seeds, some nodes, some d, some sd, some draw =>
+      if selCheck ⟨peers, live, dead, seeds⟩ (nodes, d, sd) draw then (w, "(sel ok)") else (w, "(sel bad)")
+    | _, _, _, _, _, _, _, _ => bad w "selcheck"
+  | .list [.atom "sub", slot, idx, pfx] =>
+    match slot.nat?, idx.nat?, pfx.bytes? with
+    | some slot, some idx, some pfx => (w.setListeners slot ((w.listenersOf slot).subscribe pfx idx), "(ok)")
+    | _, _, _ => bad w "sub"
+  | .list [.atom "unsub", slot, idx, pfx] =>
+    match slot.nat?, idx.nat?, pfx.bytes? with
+    | some slot, some idx, some pfx => (w.setListeners slot ((w.listenersOf slot).unsubscribe pfx idx), "(ok)")
+    | _, _, _ => bad w "unsub"
+  | .list [.atom "forever", _, _] => (w, "(ok)")
   | .list [.atom "hb", slot, i, hb] =>
     match slot.nat?.bind w.node?, slot.nat?, rId i, hb.nat? with
     | some n, some slot, some i, some hb =>
@@ -247,7 +289,7 @@ def step (w : World) (cmd : Sexp) : World × String :=
         | .ok (s', st, evs) =>
           let n' := { n with cs := n.cs.setNode i s' }
           (w.setNode slot n', pList "ok" [pDeltaStatus st, pDeltaStatus (s.checkDeltaStatus nd),
-            pEvents (evs.map (fun e => (i, e))), pNs s'])
+            pEvC w slot (evs.map (fun e => (i, e))), pNs s'])
     | _, _, _ => bad w "applynd"
   | .list [.atom "apply", slot, delta] =>
     match slot.nat?.bind w.node?, slot.nat?, rDelta delta with
@@ -255,7 +297,7 @@ def step (w : World) (cmd : Sexp) : World × String :=
       match n.processDelta delta w.now with
       | .error e => (w, pPanic e)
       | .ok (n', cb, evs) =>
-        (w.setNode slot n', pList "ok" [toString cb, pEvents evs, pNode n'])
+        (w.setNode slot n', pList "ok" [toString cb, pEvC w slot evs, pNode n'])
     | _, _, _ => bad w "apply"
   | .list [.atom "reads", slot, i, keys, pfxs] =>
     match slot.nat?.bind w.node?, rId i, (rTagged keys).bind (mapM? Sexp.bytes?),
